@@ -87,7 +87,11 @@ func baseProp(st sreg.Strat) engine.AnyProp {
 				c.Plain = true
 			}
 			w := st.Warm(st.BuildLeaf(c.Plain, c.Cfg))
-			c.Bars = gen.GenBarsAny(t, genN(t, w))
+			n := genN(t, w)
+			if engine.OncePerRun("C05-very-long/" + st.Name) {
+				n = 1<<16 + 8 // every base strategy once per run: one action per snapshot on a long history too
+			}
+			c.Bars = gen.GenBarsAny(t, n)
 			return c
 		},
 		Check: func(c Case) engine.Outcome {
